@@ -219,7 +219,12 @@ pub fn observe(w: &World) -> Obs {
                 .unwrap_or(0);
             for t in accts.iter() {
                 if let Ok(p) = w.q(e, json!({"position": {"vamm": va, "trader": t}})) {
-                    o.pos.insert((i, t.clone()), Pos::from_json(&p));
+                    // the answer names the (vAMM, trader) it belongs to: a record served under a colliding storage key
+                    // is somebody else's position, not this account's
+                    let own = p["vamm"].as_str().map(|x| x == va).unwrap_or(true) && p["trader"].as_str().map(|x| x == t).unwrap_or(true);
+                    if own {
+                        o.pos.insert((i, t.clone()), Pos::from_json(&p));
+                    }
                 }
             }
         }
